@@ -2,7 +2,7 @@ import HclModel.Json.Grammar
 import Proofs.JsonString
 /-!
 Scanner lemmas for C13: the scanner with canonical fuel (`S`), its one-step equation, what it produces for
-each kind of token (completeness direction, strings need `SafeAdv`) and what a produced token tells about
+each kind of token (completeness direction; for strings this rests on `clampAdv`) and what a produced token tells about
 the input (soundness direction).
 -/
 namespace HclModel.Json.Proofs
@@ -149,22 +149,46 @@ theorem S_ws (adv : List Byte → Nat) {w : List Byte} (h : AllWs w) (x : List B
   rw [S_eq, S_eq adv x, dropWhile_allWs h, takeWhile_allWs h]
   simp only [List.length_append, Nat.add_assoc]
 
-theorem mem_takeWhile_imp {p : Byte → Bool} {l : List Byte} {b : Byte} (h : b ∈ l.takeWhile p) : p b = true := by
-  induction l with
-  | nil => simp at h
-  | cons a l ih =>
-    by_cases ha : p a
-    · simp only [List.takeWhile_cons, ha, if_true, List.mem_cons] at h
-      rcases h with h | h
-      · rw [h]; exact ha
-      · exact ih h
-    · simp [ha] at h
-
 theorem allWs_takeWhile (buf : List Byte) : AllWs (buf.takeWhile isWs) := fun _ hb => mem_takeWhile_imp hb
 
 
+/-- the defining property of `clampAdv`: the result is between 1 and `a`, and the bytes a clamped step
+    skips (all but the first byte of the cluster) are neither `"`, `\` nor control bytes -/
+theorem clampAdv_spec (a : Nat) (rest : List Byte) (ha : 1 ≤ a) :
+    1 ≤ clampAdv a rest ∧ clampAdv a rest ≤ a ∧
+    ∀ i, i < clampAdv a rest - 1 → ∀ x, rest[i]? = some x → x ≠ 34 ∧ x ≠ 92 ∧ 32 ≤ x := by
+  unfold clampAdv
+  split
+  · rename_i j hj
+    obtain ⟨hlt, _, hall⟩ := List.findIdx?_eq_some_iff_getElem.mp hj
+    have hlt' := hlt
+    simp only [List.length_take] at hlt'
+    refine ⟨by omega, by omega, ?_⟩
+    intro i hi x hx
+    have hij : i < j := by omega
+    have hnp := hall i hij
+    have hget : (rest.take (a - 1))[i]'(Nat.lt_trans hij hlt) = x := by
+      have h1 : (rest.take (a - 1))[i]? = some x := by
+        rw [List.getElem?_take_of_lt (by omega)]; exact hx
+      exact (List.getElem?_eq_some_iff.mp h1).2
+    rw [hget] at hnp
+    simp only [Bool.or_eq_true, decide_eq_true_eq, not_or] at hnp
+    simp only [Byte] at *
+    omega
+  · rename_i hj
+    have hall := List.findIdx?_eq_none_iff.mp hj
+    refine ⟨ha, Nat.le_refl _, ?_⟩
+    intro i hi x hx
+    have hmem : x ∈ rest.take (a - 1) := by
+      apply List.mem_of_getElem? (i := i)
+      rw [List.getElem?_take_of_lt hi]; exact hx
+    have hnp := hall x hmem
+    simp only [Bool.or_eq_false_iff, decide_eq_false_iff_not] at hnp
+    simp only [Byte] at *
+    omega
+
 theorem okBody_drop : ∀ (k : Nat) (s : List Byte), okBody s false → k ≤ s.length →
-    (∀ i, i < k → ∀ x, s[i]? = some x → 128 ≤ x) → okBody (s.drop k) false := by
+    (∀ i, i < k → ∀ x, s[i]? = some x → x ≠ 34 ∧ x ≠ 92 ∧ 32 ≤ x) → okBody (s.drop k) false := by
   intro k
   induction k with
   | zero => intro s h _ _; simpa using h
@@ -173,16 +197,14 @@ theorem okBody_drop : ∀ (k : Nat) (s : List Byte), okBody s false → k ≤ s.
     cases s with
     | nil => simp at hk
     | cons x s =>
-      have hx0 : (128 : Nat) ≤ x := hx 0 (by omega) x (by simp)
-      have h92 : x ≠ 92 := by simp only [Byte] at *; omega
-      have h34 : x ≠ 34 := by simp only [Byte] at *; omega
+      obtain ⟨h34, h92, _⟩ := hx 0 (by omega) x (by simp)
       simp only [okBody, h92, h34, if_false] at h
       simp only [List.drop_succ_cons]
       apply ih s h.2 (by simpa using hk)
       intro i hi y hy
       exact hx (i+1) (by omega) y (by simpa using hy)
 
-theorem scanStringBody_ok {adv : List Byte → Nat} (hs : SafeAdv adv) :
+theorem scanStringBody_ok (adv : List Byte → Nat) :
     ∀ (n : Nat) (s : List Byte) (esc : Bool) (fuel : Nat) (rest : List Byte), s.length ≤ n → okBody s esc →
       s.length < fuel → scanStringBody adv fuel (s ++ 34 :: rest) esc = s.length + 1 := by
   intro n
@@ -228,29 +250,26 @@ theorem scanStringBody_ok {adv : List Byte → Nat} (hs : SafeAdv adv) :
             simp only [h92, h34, if_false]
             have hlt : ¬ b < 32 := by simp only [Byte] at *; omega
             simp only [hlt, if_false]
-            -- the cluster
-            have hsafe := hs (b :: (s ++ 34 :: rest))
-            have ha0 : adv (b :: (s ++ 34 :: rest)) ≤ s.length + 1 := by
+            -- the cluster, clamped
+            generalize ha0 : min (max 1 (adv (b :: (s ++ 34 :: rest)))) ((s ++ 34 :: rest).length + 1) = a0
+            have ha01 : 1 ≤ a0 := by rw [← ha0]; simp; omega
+            obtain ⟨ha1, _, hskip⟩ := clampAdv_spec a0 (s ++ 34 :: rest) ha01
+            generalize clampAdv a0 (s ++ 34 :: rest) = a at ha1 hskip ⊢
+            have ha2 : a ≤ s.length + 1 := by
               apply Nat.le_of_not_lt
               intro hgt
-              have : (128 : Nat) ≤ 34 := hsafe (s.length + 1) (by omega) hgt 34 (by simp)
-              omega
-            generalize ha : min (max 1 (adv (b :: (s ++ 34 :: rest)))) ((s ++ 34 :: rest).length + 1) = a
-            have ha1 : 1 ≤ a := by rw [← ha]; simp; omega
-            have ha2 : a ≤ s.length + 1 := by rw [← ha]; simp; omega
-            have ha3 : a ≤ max 1 (adv (b :: (s ++ 34 :: rest))) := by rw [← ha]; simp; omega
+              have := (hskip s.length (by omega) 34 (by simp)).1
+              exact this rfl
             have hdrop : (s ++ 34 :: rest).drop (a - 1) = s.drop (a - 1) ++ 34 :: rest := by
               rw [List.drop_append_of_le_length (by omega)]
             rw [hdrop]
             have hok' : okBody (s.drop (a - 1)) false := by
               apply okBody_drop _ _ hok.2 (by omega)
               intro i hi x hx
-              apply hsafe (i + 1) (by omega) (by omega) x
-              simp only [List.getElem?_cons_succ]
+              apply hskip i hi x
               rw [List.getElem?_append_left]
               · exact hx
-              · have := (List.getElem?_eq_some_iff.mp hx).1
-                exact this
+              · exact (List.getElem?_eq_some_iff.mp hx).1
             rw [ih _ _ f rest (by simp; omega) hok' (by simp; omega)]
             simp; omega
 
@@ -376,7 +395,7 @@ theorem S_keyword (adv : List Byte → Nat) {b : Byte} {v' : List Byte} (hb : is
     rw [← List.cons_append, List.drop_left']; rfl
   rw [h1, h2]
 
-theorem S_string {adv : List Byte → Nat} (hs : SafeAdv adv) {s : List Byte} (hok : okBody s false)
+theorem S_string (adv : List Byte → Nat) {s : List Byte} (hok : okBody s false)
     (r : List Byte) (pos : Nat) :
     S adv (34 :: s ++ 34 :: r) pos = ⟨.string, 34 :: s ++ [34], pos⟩ :: S adv r (pos + (s.length + 2)) := by
   rw [List.cons_append, S_cons adv _ pos (by decide)]
@@ -387,7 +406,7 @@ theorem S_string {adv : List Byte → Nat} (hs : SafeAdv adv) {s : List Byte} (h
   rw [if_pos rfl]
   have hlen : scanStringLen adv (34 :: (s ++ 34 :: r)) = s.length + 2 := by
     unfold scanStringLen
-    rw [List.tail_cons, scanStringBody_ok hs s.length s false _ r (Nat.le_refl _) hok (by simp; omega)]
+    rw [List.tail_cons, scanStringBody_ok adv s.length s false _ r (Nat.le_refl _) hok (by simp; omega)]
     omega
   rw [hlen]
   have hmin : min (s.length + 2) ((s ++ 34 :: r).length + 1) = s.length + 2 := by
